@@ -1,0 +1,33 @@
+// Verification-only (`--cfg metrique_verif_loom`): the real crossbeam `ArrayQueue` with a
+// loom-visible marker in front of every call (a linearizable black box for the scheduler).
+
+use metrique_writer_core::__verif::shadow::Shadow;
+
+pub(crate) struct ArrayQueue<T> {
+    real: crossbeam_queue::ArrayQueue<T>,
+    shadow: Shadow,
+}
+
+impl<T> ArrayQueue<T> {
+    pub(crate) fn new(cap: usize) -> Self {
+        ArrayQueue {
+            real: crossbeam_queue::ArrayQueue::new(cap),
+            shadow: Shadow::new(),
+        }
+    }
+    pub(crate) fn force_push(&self, v: T) -> Option<T> {
+        self.shadow.touch();
+        self.real.force_push(v)
+    }
+    pub(crate) fn pop(&self) -> Option<T> {
+        self.shadow.touch();
+        self.real.pop()
+    }
+    pub(crate) fn capacity(&self) -> usize {
+        self.real.capacity()
+    }
+    pub(crate) fn len(&self) -> usize {
+        self.shadow.touch();
+        self.real.len()
+    }
+}
